@@ -330,6 +330,9 @@ def execute(sc):
             outcome.append([api, op.get('path', op.get('name')), bool(v.chain), r[0], r[1] if r[0] != 'ok' else repr(r[1])[:80]])
             if r[0] == 'INTERNAL':
                 continue
+            if model.trailing:
+                zones['compressed-manifest-with-trailing-data'] = zones.get('compressed-manifest-with-trailing-data', 0) + 1
+                continue
             if v.kind == 'FAIL-ANY':
                 if r[0] == 'ok':
                     violations.append(viol('chain.top-unusable-but-result', '%s returned %r' % (what, r[1])))
